@@ -42,8 +42,9 @@ def run_checks(i):
         return {"error": "patch does not apply: " + r.stderr[:200]}
     try:
         res = {}
-        for prop in sorted(T):
-            if "--all" not in sys.argv and prop != i:
+        own = i.split("-")[0]
+        for prop in sorted({k.split("-")[0] for k in T}):
+            if "--all" not in sys.argv and prop != own:
                 continue
             p = subprocess.run(["/verif/bin/sdnsverif", "-property", prop, "-verif", "/tmp/seeded_ev"], capture_output=True, text=True)
             keys = re.findall(r"^\s+key=(.*)$", p.stdout, re.M)
@@ -56,6 +57,49 @@ if not os.path.exists("/tmp/seeded_ev/checker"):
     os.symlink("/verif/checker", "/tmp/seeded_ev/checker")
 if os.path.exists("/verif/known-findings.txt"):
     subprocess.run(["cp", "/verif/known-findings.txt", "/tmp/seeded_ev/known-findings.txt"])
+W2 = {
+ "C01-w2A": ("middleware/cache/entry_wire_chase.go composeWireChase", "the per-hop AD merge is folded into the 'hop carries DNSSEC records' branch: a validated alias whose target is an insecure-zone entry (AD=0, no signatures) is answered AD=1", "wire-born DO=1 query, exact hit on an incomplete alias, all hops cached, a later hop AD=0 without signatures"),
+ "C01-w2B": ("middleware/resolver/dnssec/verify.go verifyRRSIGWithWork", "the DNAMEs collected for the 'synthesised CNAME needs no RRSIG' exemption are no longer restricted to the signer zone: a forged out-of-zone DNAME in the authority section vouches for an unsigned CNAME (NOERROR, AD=1)", "crafted upstream reply: unsigned CNAME equal to the DNAME substitution + ancestor DNAME above the apex + one genuinely signed RRset"),
+ "C02-w2A": ("middleware/cache/prefetch_queue.go processPrefetch", "negative.Aggressive dropped from the prefetch admission guard: a subtree cut is published for a proof the RFC 8198 classifier refused", "background refresh whose CAS succeeds returning a validated NXDOMAIN the strict classifier refused, then a query in that subtree"),
+ "C02-w2B": ("middleware/resolver/dnssec/aggressive_negative.go closestEncloserFromAggressiveNSEC", "closest encloser from the covering owner only (same mechanism as wave 1)", "wildcard under an ENT, label sorting before '*'"),
+ "C03-w2A": ("middleware/cache/entry_wire_chase.go collectWireChase", "hop check inlined as name/type/class only (same mechanism as wave 1)", "forged key collision on the chase hop"),
+ "C03-w2B": ("middleware/cache/cache.go serveCompositeFromWire", "the `if !cd` gate around LookupNXDomainCutWire removed: a wire-born CD=1 query is answered NXDOMAIN from a cut built under CD=0", "cached cut over an ancestor, wire-born RD=1 CD=1 query without ECS, no exact CD=1 entry"),
+ "C04-w2A": ("middleware/cache/cache.go additionalAnswer", "lineage.inherit() removed in the branch adopting a chased target's NXDOMAIN: the alias is re-cached with the CNAME's TTL and no cut", "Msg-path alias chase whose target denial is a bare NXDOMAIN with less life than the CNAME"),
+ "C04-w2B": ("internal/dnsutil/cache_ttl.go CalculateCacheTTL", "authority-section loop skipped for positive answers: authority RRSIG expiry no longer bounds the entry", "positive answer whose authority RRSIG expires before every TTL"),
+ "C05-w2A": ("middleware/edns/edns.go serveWire", "the max(…,512) floor of the UDP size lost on the wire branch only: strict path truncates where the decoded path answers", "OPT UDP size 0–511 and a reply between that and 512 bytes"),
+ "C05-w2B": ("middleware/request.go parseWireOPT", "ECS scope bound dropped: strict admission admits a packet the library refuses (token spent, then silently dropped; decoded path answers FORMERR)", "ECS option well formed except scope > family width"),
+ "C06-w2A": ("middleware/edns/edns.go ResponseWriter.WriteMsg", "the merge of w.opt.Option into a response's own OPT moved after stripECS/stripKeepalive: the forwarded ECS copy reaches the client", "ECS forwarding on, client allowed, downstream response with its own OPT, Msg path"),
+ "C06-w2B": ("middleware/cache/entry_wire.go prepareWireServe", "wireHasDNSSEC from the answer section only (same mechanism as wave 1)", "cached signed negative answer, DO=0, byte path"),
+ "C07-w2A": ("middleware/resolver/resolver.go checkGlueRR", "the AAAA glue loop lost its bailiwick check (IPv4 loop kept it): out-of-zone AAAA glue cached resolver-wide", "ipv6access on, referral naming an out-of-zone NS host with AAAA in additional, later glue-less delegation to it"),
+ "C07-w2B": ("internal/dnsclient/conn.go QuestionMatches", "names compared in place folding case with |0x20 on every byte: '[' vs '{' etc. compare equal, a reply about a different name is accepted", "two names differing only in [/{ ]/} ^/~"),
+ "C08-w2A": ("middleware/resolver/resolver.go resolve (isRoot seed)", "noteCut after the searchCache seed dropped: answers learned through a cached delegation are cached with no cut deadline", "second name under a short-leased delegation resolved from the cached delegation, parent withdraws, asked again after the lease"),
+ "C08-w2B": ("middleware/resolver/resolver.go extractDelegationInfo", "running minimum `if h.Ttl < info.nsTTL` became assignment: lease = TTL of the last NS record", "referral whose NS TTLs differ with the smallest not last"),
+ "C09-w2A": ("middleware/resolver/auto_trust_anchor.go AutoTA", "StateRevoked/Removed markers dropped unconditionally, not only after a successful writeTombstones: no durable record of the revocation remains", "new revocation + fault on the tombstone file only + restart with the key still configured"),
+ "C09-w2B": ("middleware/resolver/auto_trust_anchor.go AutoTA", "the !revocationOnly guard narrowed to the absent-key branch: pending→valid and missing→valid run under revocation-only authentication", "key pending > 30 days + a set self-signed only by the revoked key"),
+ "C10-w2A": ("middleware/edns/edns.go serveWire", "the deferred unwrap+scrub of the slab's edns writer runs inline after ch.Next: a panicking request leaves cookie state for the next client", "wire-born query with COOKIE, a panic downstream of edns, slab reuse by a client without cookie"),
+ "C10-w2B": ("server/tcp_stream.go tcpStream.stage", "flush test uses held+len(payload) instead of held+need (2-byte prefix not counted): a frame announced at N bytes with N-2 staged", "pipelined burst whose staged replies land exactly on 8191/8192 bytes"),
+ "C11-w2A": ("middleware/resolver/zone_inflight.go zoneInflightLimiter.acquire", "the rollback bucket.Add(-1) on a refused acquire removed: every shed lookup leaks zone quota", "a zone hitting its in-flight quota at least once"),
+ "C11-w2B": ("server/strict.go ServeRawReplay", "decoded fallback calls serveMsg (clock restarts) instead of serveMsgBy(readTime+timeout)", "inline fast path, packet the strict parser declines but that decodes, queue wait, slow upstreams"),
+ "C12-w2A": ("middleware/resolver/resolver.go processDelegation restart", "restart resolveState loses work (same mechanism as wave 1)", "minimisation restart in enforce mode"),
+ "C12-w2B": ("middleware/resolver/resolver.go subQuery", "child state no longer given work: DS/DNSKEY helper lookups go undebited", "enforce mode + DS/DNSKEY fetch walking several delegations"),
+ "C13-w2A": ("middleware/cache/cache.go ResponseWriter.WriteMsg", "second SERVFAIL block records the failure with netip.Prefix{} instead of w.clientScope: an ECS-audience failure is filed as global", "ECS client whose answer is a CNAME loop, then a non-ECS client within the backoff"),
+ "C13-w2B": ("middleware/cache/failure_cache.go walkFailureZones", "dns.NextLabel replaced by IndexByte('.')+1: a\\.b.example. treated as a child of b.example.", "QNAME with an escaped dot inside a label on the decoded path"),
+ "C14-w2A": ("middleware/resolver/dnssec/rsa.go rsaVerifyPKCS1v15", "the c >= n range check dropped: sig+n verifies under a wide-exponent key", "RSA key with exponent > 2^31 and a signature small enough that sig+n fits"),
+ "C14-w2B": ("middleware/resolver/dnssec/keytag.go KeyTag", "short-chunk fallback guard changed from decoded != len(out) to in[n-1]=='=': wrapped base64 flips the byte parity, wrong key tag", "PublicKey > 256 chars with line breaks such that a window holds 4 mod 8 CR/LF octets"),
+ "C15-w2A": ("internal/wire/pack.go msgBits", "opcode masked with &0xF (the library does not mask): different flags word for opcodes ≥ 16", "message built in code with Opcode ≥ 16"),
+ "C15-w2B": ("internal/wire/pack.go libraryPackImmutable", "early exit gained `|| msg.Rcode <= 0xF`: the library's extended-rcode write then clears the caller's OPT TTL top octet", "fallback (>4096 bytes) + OPT with stale extended-rcode bits + low rcode"),
+ "C16-w2A": ("internal/cache/uint64_unsafe_map.go backwardShiftDelete", "i < k → i <= k (same mechanism as wave 1)", "probe chain wrapping the array end"),
+ "C16-w2B": ("internal/cache/segment_uint64_map.go SetWithCap spill loop", "per-segment count.Add(-d) became one Add(-evicted) after the loop, skipped by the early return: Len() stays above reachable entries", "over-capacity insert that spills + concurrent Remove before the next loop check"),
+ "C17-w2A": ("internal/ipset/ipset.go Set.add", "p = p.Masked() dropped: a CIDR written with host bits covers only addresses from the written host upward", "CIDR with non-zero host bits and a source in the block below it"),
+ "C17-w2B": ("middleware/accesslist/accesslist.go New", "open default chosen after compiling (same mechanism as wave 1)", "every entry malformed"),
+ "C18-w2A": ("middleware/blocklist/blocklist.go persist", "os.Remove(path) inserted before os.Rename: a window (and any failed rename) with no local file", "crash or fault exactly between remove and rename"),
+ "C18-w2B": ("middleware/blocklist/blocklist.go ServeDNS", "fast path hasEntries := len(b.m) > 0 only: a wildcard-only list passes blocked names on", "list holding only wildcard entries"),
+ "C19-w2A": ("internal/dnsutil/helpers.go SetEdns0", "the unconditional opt.Option = nil moved into the else arm of the forwarding decision: when Clamp rejects the client's ECS nothing is stripped", "ECS on, client allowed, an ECS option that decodes but cannot be clamped"),
+ "C19-w2B": ("internal/ecs/policy.go ClampScope", "source clamp and floor merged into one switch: once SCOPE>SOURCE fires the min_scope widening is skipped", "forward ceiling finer than the floor + authority returning SCOPE > SOURCE"),
+ "C20-w2A": ("middleware/dns64/dns64.go isDNSSECFailure", "first EDE only (same mechanism as wave 1)", "SERVFAIL with ≥2 EDEs, DNSSEC one not first"),
+ "C20-w2B": ("middleware/dns64/dns64.go negativeAAAATTL", "`soa.Minttl > 0 && soa.Minttl < ttl` lost its second half: MINIMUM whenever non-zero", "SOA TTL below SOA MINIMUM and A TTL above the SOA TTL"),
+}
+T.update(W2)
 for i, (where, breaks, needs) in sorted(T.items()):
     d = f"{S}/{i}"
     if not os.path.isdir(d):
@@ -66,13 +110,13 @@ for i, (where, breaks, needs) in sorted(T.items()):
     for root, _, fs in os.walk(f"{d}/demo"):
         for f in fs:
             demos.append(os.path.relpath(os.path.join(root, f), f"{d}/demo"))
-    meta.update({"property": i, "changed": where, "breaks": breaks, "needs_to_manifest": needs,
+    meta.update({"property": i.split("-")[0], "wave": 2 if "-w2" in i else 1, "changed": where, "breaks": breaks, "needs_to_manifest": needs,
                  "demo_files": sorted(demos), "author": "independent sub-agent given only the property text and a scratch worktree",
                  "confirmed_by": "tools/verify_seeded.sh in a scratch worktree of /repo HEAD: patch applies and builds; existing tests of the touched packages with the change; demo with the change (must FAIL); demo without it (must PASS)",
                  "verification": verification(i)})
     if "--run" in sys.argv:
         meta["checks_run_against_it"] = run_checks(i)
-        own = meta["checks_run_against_it"].get(i, {})
+        own = meta["checks_run_against_it"].get(i.split("-")[0], {})
         meta["detected_by_own_property_check"] = bool(own.get("exit") == 1)
         print(i, "detected" if meta["detected_by_own_property_check"] else "MISSED", own.get("reported", [])[:3])
     json.dump(meta, open(mp, "w"), indent=1)
